@@ -198,6 +198,19 @@ namespace ratio
             return TRUE_lit;
         else if (var_item *ee = dynamic_cast<var_item *>(&i))
             return get_core().get_ov_theory().new_eq(ev, ee->ev);
+        else if (string_item *si = dynamic_cast<string_item *>(&i))
+        { // a string is compared by content: it equals the allowed values spelled the same way..
+            std::vector<lit> eqs;
+            for (const auto &val : get_core().get_ov_theory().value(ev))
+                if (static_cast<item *>(val)->equates(*si))
+                    eqs.push_back(get_core().get_ov_theory().allows(ev, *val));
+            if (eqs.empty())
+                return FALSE_lit;
+            else if (eqs.size() == 1)
+                return eqs.front();
+            else
+                return get_core().get_sat_core().new_disj(eqs);
+        }
         else
             return get_core().get_ov_theory().allows(ev, i);
     }
@@ -212,6 +225,13 @@ namespace ratio
             std::unordered_set<var_value *> i_vals = get_core().get_ov_theory().value(ei->ev);
             for (const auto &c_v : c_vals)
                 if (i_vals.count(c_v))
+                    return true;
+            return false;
+        }
+        else if (string_item *si = dynamic_cast<string_item *>(&i))
+        { // a string is compared by content..
+            for (const auto &c_v : get_core().get_ov_theory().value(ev))
+                if (static_cast<item *>(c_v)->equates(*si))
                     return true;
             return false;
         }
@@ -242,6 +262,8 @@ namespace ratio
             return TRUE_lit;
         else if (string_item *se = dynamic_cast<string_item *>(&i))
             return l.compare(se->l) == 0 ? TRUE_lit : FALSE_lit;
+        else if (var_item *ei = dynamic_cast<var_item *>(&i))
+            return ei->new_eq(*this);
         else
             return FALSE_lit;
     }
@@ -252,6 +274,8 @@ namespace ratio
             return true;
         else if (const string_item *se = dynamic_cast<const string_item *>(&i))
             return l.compare(se->l) == 0;
+        else if (var_item *ei = dynamic_cast<var_item *>(&i))
+            return ei->equates(*this);
         else
             return false;
     }
